@@ -617,29 +617,18 @@ class Box:
     def __init__(self, v): self.value = v
 env = {'self': Self(), 'waitable_pool': Pool(), 'BatchFormatVersion': BFV, 'json': json, 'log': Log(), 'regions_bits_rep_to_regions': dec, 'mark_job_creating': noop, 'mark_job_errored': noop,
        'time_msecs': lambda: 0, 'secret_alnum_string': lambda n: 'abcdef', 'RegionsNotSupportedError': type('RegionsNotSupportedError', (Exception,), {}), 'traceback': traceback, 'random': random,
-       'n_user_instances_created': 0, 'n_allocated_instances': 100, 'n_instances_created': 0, 'should_wait': True, 'remaining': Box(100)}
-# one iteration = the loop body with `continue` / `break` turned into a return of a wrapper coroutine
-wrapper = ast.parse('async def __iteration__(record):\n    global n_user_instances_created, n_instances_created, should_wait\n    pass')
-class T(ast.NodeTransformer):
-    def visit_Continue(self, n): return ast.copy_location(ast.Return(value=None), n)
-    def visit_Break(self, n): return ast.copy_location(ast.Return(value=None), n)
-    def visit_AsyncFunctionDef(self, n): return n
-    def visit_FunctionDef(self, n): return n
-    def visit_For(self, n): return n
-    def visit_While(self, n): return n
-import copy
-wrapper.body[0].body = [wrapper.body[0].body[0]] + [T().visit(copy.deepcopy(s)) for s in body]
+       }
+# the loop as written (its body unchanged, all iterations in ONE scope as in the real function), over a list instead of the query
+wrapper = ast.parse('async def __run__(self, records, waitable_pool):\n    n_user_instances_created = 0\n    n_allocated_instances = 100\n    n_instances_created = 0\n    should_wait = True\n    remaining = Box(100)\n    for record in records:\n        pass\n    await waitable_pool.wait()')
+wrapper.body[0].body[-2].body = body
 ast.fix_missing_locations(wrapper)
-exec(compile(wrapper, 'job_private-loop-body', 'exec'), env)
-async def main():
-    for r in records:
-        await env['__iteration__'](r)
-    await env['waitable_pool'].wait()
-asyncio.run(main())
+env['Box'] = Box
+exec(compile(wrapper, 'job_private-loop', 'exec'), env)
+asyncio.run(env['__run__'](env['self'], records, env['waitable_pool']))
 want = [(json.loads(r['spec'])['machine_spec'], Self.inst_coll_manager.regions if r['regions_bits_rep'] is None else dec(r['regions_bits_rep'], Self.app['regions'])) for r in records]
 res = {'confirmed': False}
 if [(m, list(g)) for m, g in created] != [(m, list(g)) for m, g in want]:
-    res = {'confirmed': True, 'input': {'records': [{k: r[k] for k in ('job_id', 'spec', 'regions_bits_rep')} for r in records]}, 'what': 'instances requested (machine spec, regions) %r; the stored forms of the three jobs give %r' % (created, want)}
+    res = {'confirmed': True, 'input': {'records': [{k: r[k] for k in ('job_id', 'spec', 'regions_bits_rep')} for r in records]}, 'what': 'instances requested (machine spec, regions) %r; the stored forms of the three jobs give %r (schedule: the pool runs the coroutines after the loop has gone through all records, as when its workers are busy)' % (created, want)}
 print(json.dumps(res))
 '''
 
